@@ -178,6 +178,7 @@ func Explore(cfg *Config) (*Report, error) {
 			m.Trace = cfg.Trace
 			m.Witness = cfg.Witness
 			m.TolerantInit = cfg.Tolerant
+			m.NoopPkgs = func(p string) bool { return p == "log/slog" || p == "log" }
 			if len(cfg.Stubs) > 0 {
 				m.Stubs = map[string]*ssa.Function{}
 				for k, v := range cfg.Stubs {
